@@ -684,6 +684,9 @@ def r6(tree, rep):
 
 
 def run(tree, rep, tier):
+    from .. import itermut
+    itermut.check(tree, rep, "C12.R8", ("src/wormhole/_dilation/connection.py",),
+                  "records parked while the connection waits to be selected are skipped and never reach the manager")
     # R7: every read re-runs the parser: _Framer.add_and_parse appends the bytes and reaches self.parse() on every path (no state besides the
     # buffer decides whether to look at it - a frame that is complete in the buffer is always found)
     ap_ = tree.func(CON, "_Framer", "add_and_parse")
@@ -693,6 +696,24 @@ def run(tree, rep, tier):
               key="C12.R7:add_and_parse:always-parses",
               what="_Framer.add_and_parse can return without running the parser: a frame that is complete in the buffer is withheld until some "
                    "later read (for ever, if the sender waits for the reply)")
+    # ... and a token that was recognised never ends the loop: whatever follows it in the same TCP segment (the peer's prologue right
+    # behind the relay's "ok", the handshake frame right behind the prologue) is parsed in the next round
+    gs_ = build(ap_, split=True)
+    tokvars_ = {a.targets[0].id for a in ast.walk(ap_) if isinstance(a, ast.Assign) and len(a.targets) == 1 and isinstance(a.targets[0], ast.Name)
+                and any(isinstance(c, ast.Call) and dotted(c.func) == "self.parse" for c in ast.walk(a.value))}
+
+    def is_token_class_test(x):
+        if isinstance(x, ast.Call) and isinstance(x.func, ast.Name) and x.func.id == "isinstance" and len(x.args) == 2 \
+                and isinstance(x.args[0], ast.Name) and x.args[0].id in tokvars_:
+            return True
+        return None
+    rec_ = gs_.cond_edges(is_token_class_test, True)
+    pn2_ = gs_.call_nodes(lambda c: dotted(c.func) == "self.parse")
+    ok_ = bool(rec_) and bool(pn2_) and all(gs_.exit not in gs_.reach([y], avoid_nodes=set(pn2_), explicit_only=True) for (x, y, l) in rec_)
+    rep.check("C12.R7", "_Framer.add_and_parse: after a recognised token (%d isinstance branches) the loop always parses again before it can end" % len(rec_),
+              ok_, site(ap_, CON), key="C12.R7:add_and_parse:recognised-token-continues",
+              what="after one kind of token (the relay's ok) add_and_parse can leave its loop although more bytes of the same segment are buffered: "
+                   "a peer prologue that arrives together with the relay reply is never parsed - with a relay, the connection deadlocks")
     from .. import sharedstate
     sharedstate.check(tree, rep, "C12.R0")
     r1(tree, rep)
@@ -725,3 +746,5 @@ MUTANTS = [
 REWRITES = [
     Rewrite("parse-inline-slices", CON, "        resp_seqnum = from_be4(plaintext[1:5])\n        return Ack(resp_seqnum)", "        return Ack(from_be4(plaintext[1:5]))", desc="local inlined in parse_record"),
 ]
+MUTANTS.append(Mutant("relay-ok-ends-the-loop", CON, "            elif isinstance(token, Prologue):", "            if isinstance(token, Prologue):", "C12.R7", "seed C12-16"))
+MUTANTS.append(Mutant("drain-queue-while-iterating", CON, "        while self._inbound_record_queue:\n            r = self._inbound_record_queue.pop(0)\n", "        for r in self._inbound_record_queue:\n            self._inbound_record_queue.remove(r)\n", ("C12.R8", "C12.R"), "seed C12-17"))
